@@ -5,6 +5,7 @@
     Definitions only. *)
 From Coq Require Import List NArith Arith Bool Lia.
 From BBS Require Import Common.Sx Generated.Consts Index.KlmFnv.
+(* -- (keeps lib/checklib.py's dependency scan from reading past the sentence) *)
 Import ListNotations.
 Open Scope N_scope.
 
